@@ -13,3 +13,7 @@ ASSUMPTIONS = conn.COMMON_ASSUMPTIONS + [
 def targets(eng):
     return conn.targets_for(eng, ["handle_timeout", "handle_complex_message", "lemmas:C11", "_add_message_callback_without_remove",
                                   "add_message_callback", "_remove_message_callback", "send_messages_await_response_complex"], ["C11"])
+
+
+# built-in mutants of the real source text for the thorough tier's self-check (each must be refuted by a named obligation)
+MUTANTS = [('collector-ignores-completion', 'aioesphomeapi/connection.py', '    if not fut.done():\n        if do_append', '    if True:\n        if do_append')]
